@@ -365,6 +365,29 @@ theorem authorizedTsig_no_panic (cfg : ZoneCfg) (tsig : SigRec) (buf : Bytes) (n
 
 /-- **The server path never panics** on any request bytes, configuration or clock value (as far
 as it is modelled: parse, dispatch, authorisation). -/
+theorem authorizeUpdate_no_panic (cfg : ZoneCfg) (req : Req) (buf : Bytes) (now : Nat)
+    (rdok : Bool) (s : String) : authorizeUpdate cfg req buf now rdok ≠ .panic s := by
+  unfold authorizeUpdate
+  split
+  · simp
+  · split
+    · simp
+    · split
+      · exact authorizedTsig_no_panic _ _ _ _ _ _
+      · simp
+
+theorem authorizeAxfr_no_panic (cfg : ZoneCfg) (req : Req) (buf : Bytes) (now : Nat)
+    (rdok : Bool) (s : String) : authorizeAxfr cfg req buf now rdok ≠ .panic s := by
+  unfold authorizeAxfr
+  split
+  · split <;> simp
+  · split
+    · simp
+    · simp
+    · split
+      · exact authorizedTsig_no_panic _ _ _ _ _ _
+      · simp
+
 theorem serve_no_panic (cfg : ZoneCfg) (buf : Bytes) (now : Nat) (rdok : Bool) (s : String) :
     serve cfg buf now rdok ≠ .panic s := by
   unfold serve
@@ -376,24 +399,11 @@ theorem serve_no_panic (cfg : ZoneCfg) (buf : Bytes) (now : Nat) (rdok : Bool) (
     · split
       · simp
       · simp
-      · rename_i m hm
-        unfold authorizeUpdate at hm
-        split at hm
-        · simp at hm
-        · split at hm
-          · exact absurd hm (authorizedTsig_no_panic _ _ _ _ _ _)
-          · simp at hm
+      · rename_i m hm; exact absurd hm (authorizeUpdate_no_panic _ _ _ _ _ _)
     · split
       · simp
       · simp
-      · rename_i m hm
-        unfold authorizeAxfr at hm
-        split at hm
-        · simp at hm
-        · simp at hm
-        · split at hm
-          · exact absurd hm (authorizedTsig_no_panic _ _ _ _ _ _)
-          · simp at hm
+      · rename_i m hm; exact absurd hm (authorizeAxfr_no_panic _ _ _ _ _ _)
 
 /-! ### the record whose MAC is verified is `request.signature()` -/
 
